@@ -210,10 +210,8 @@ def r4_drop_paths(r, facts):
     if not r.require(len(adds) == 1, 'AsyncFd::drop', 'expected one Submissions::add in AsyncFd::drop', f.where()):
         return
     al, at = adds[0]
-    ok_e = err_e = None
-    for si in f.enum_switches('std::result::Result'):
-        if si['place']['l'] == at['dest']['l'] and not si['place']['p']:
-            ok_e, err_e = f.variant_edge(si, 'Ok'), f.variant_edge(si, 'Err')
+    from .kernel import result_edges
+    ok_e, err_e = result_edges(f, at) or (None, None)
     if not r.require(ok_e and err_e, 'AsyncFd::drop', 'match on the add result not found', f.where(al)):
         return
     from .kernel import effective_edge
